@@ -1,5 +1,7 @@
 """Shared steps for the checks that are decided on GinCore.tla."""
 import json
+import os
+import time
 
 from ginverif import adapter_core as A
 from ginverif import core
@@ -179,3 +181,31 @@ def replay_file(prop, path, fields=None):
     return 1 if bad else 0
   print('unknown replay kind %r' % r.get('kind'))
   return 2
+
+
+def apalache_inductive(rep, module, obligations, key):
+  """Symbolic strengthening with Apalache: spec/apalache/<module>.tla - the inductive invariant holds initially, is
+  preserved by every step from *arbitrary* (not only reachable) states, and implies the property.  A counterexample
+  is a machinery error (the specification is wrong), never a verdict about gin; an undischarged obligation (timeout,
+  Apalache missing) is recorded as such and claims nothing."""
+  import shutil, subprocess
+  src = os.path.join(tlc.SPEC_DIR, 'apalache', module + '.tla')
+  results = {}
+  for name, args in obligations:
+    wd = tlc.scratch('ginverif_apa_')
+    try:
+      shutil.copy(src, wd)
+      t0 = time.time()
+      try:
+        p = subprocess.run(['apalache-mc', 'check'] + args + ['--out-dir=' + os.path.join(wd, 'out'), module + '.tla'],
+                           cwd=wd, stdout=subprocess.PIPE, stderr=subprocess.STDOUT, text=True, timeout=240)
+        out = p.stdout
+      except (subprocess.TimeoutExpired, OSError) as e:
+        out = 'not run: %s' % type(e).__name__
+      verdict = 'OK' if 'EXITCODE: OK' in out else ('COUNTEREXAMPLE' if 'EXITCODE: ERROR (12)' in out else 'not discharged')
+      results[name] = dict(verdict=verdict, wall_s=round(time.time() - t0, 1))
+      if verdict == 'COUNTEREXAMPLE':
+        raise tlc.TLCError('Apalache found a counterexample to %s of %s:\n%s' % (name, module, out[-2000:]))
+    finally:
+      shutil.rmtree(wd, ignore_errors=True)
+  rep.extra[key] = results
